@@ -32,6 +32,10 @@ type Case struct {
 	X1  []float64 `json:"x1"`
 	X2  []float64 `json:"x2"`
 	Alt int       `json:"alt"` // -1 less, 0 differs, 1 greater
+	// Limits, if set, are installed in MannWhitneyExactLimit and MannWhitneyTiesExactLimit for
+	// the call (and restored): the exact method applies whenever the sizes are within the limit
+	// that applies to the data, whatever the other limit is.
+	Limits *[2]int `json:"limits,omitempty"`
 }
 
 const SigLegacy = "mwu-two-sided-ties-legacy"
@@ -115,6 +119,18 @@ var checkMWU = ev.Register("mwu-exact", func(c *Case) ev.Outcome {
 	}
 	if n1 > lim || n2 > lim {
 		return ev.Fail("harness error: sizes beyond the exact limits")
+	}
+	if c.Limits != nil {
+		applies := c.Limits[0]
+		if ties {
+			applies = c.Limits[1]
+		}
+		if n1 > applies || n2 > applies {
+			return ev.Fail("harness error: sizes beyond the installed limit")
+		}
+		oe, ot := stats.MannWhitneyExactLimit, stats.MannWhitneyTiesExactLimit
+		stats.MannWhitneyExactLimit, stats.MannWhitneyTiesExactLimit = c.Limits[0], c.Limits[1]
+		defer func() { stats.MannWhitneyExactLimit, stats.MannWhitneyTiesExactLimit = oe, ot }()
 	}
 	if ties {
 		// first the null distributions of some "sibling" tie vectors - the same counts in another
@@ -484,7 +500,27 @@ func TestBigGroups(t *testing.T) {
 func TestRandom(t *testing.T) {
 	ev.Rule(rule)
 	ev.Rapid(t, "c01-random", 2000, 24000, func(rt *rapid.T) {
-		checkMWU.Run(rt, drawCase(rt))
+		c := drawCase(rt)
+		if rapid.IntRange(0, 3).Draw(rt, "otherLimits") == 0 {
+			// the limit that applies is just large enough (or generous); the other one is anything,
+			// in particular smaller than the sizes, and the untied limit may lie below the tied one
+			_, ties := tieVector(c.X1, c.X2)
+			m := len(c.X1)
+			if len(c.X2) > m {
+				m = len(c.X2)
+			}
+			own := rapid.SampledFrom([]int{m, m + 1, 1000}).Draw(rt, "ownLimit")
+			other := rapid.SampledFrom([]int{0, m - 1, m / 2, m, 1000}).Draw(rt, "otherLimit")
+			if other < 0 {
+				other = 0
+			}
+			if ties {
+				c.Limits = &[2]int{other, own}
+			} else {
+				c.Limits = &[2]int{own, other}
+			}
+		}
+		checkMWU.Run(rt, c)
 	})
 }
 
